@@ -1,5 +1,7 @@
 // Shared helpers for the correspondence harnesses: line protocol, hex, SplitMix64.
 #pragma once
+#include <cstdlib>
+#include <unistd.h>
 #include <cstdint>
 #include <cstdio>
 #include <iostream>
@@ -76,10 +78,17 @@ inline int line_loop(F&& f) {
     std::ios::sync_with_stdio(false);
     std::string line;
     std::string out;
+    // per-op watchdog: an op that does not come back within VERIF_OP_TIMEOUT seconds (default 300)
+    // ends the process with SIGALRM; every answer is flushed, so the caller knows which op it was
+    const char* e = std::getenv("VERIF_OP_TIMEOUT");
+    const unsigned limit = e ? static_cast<unsigned>(std::atoi(e)) : 300U;
     while (std::getline(std::cin, line)) {
+        ::alarm(limit);
         out = f(line);
+        ::alarm(0);
         out += '\n';
         std::fwrite(out.data(), 1, out.size(), stdout);
+        std::fflush(stdout);
     }
     std::fflush(stdout);
     return 0;
